@@ -50,6 +50,72 @@ pub fn run_c13(run: &mut Run) -> anyhow::Result<()> {
         scenario(run, &mut rng, sc as u64)?;
     }
     crate::peers::blocked_handler(run, if run.quick() { 1 } else { 4 }, "redial")?;
+    for case in 0..(if run.quick() { 3 } else { 60 }) {
+        reinsert_while_dialing(run, case)?;
+    }
+    Ok(())
+}
+
+/// "Never dials peers already being dialed", across edits of the known-peer table: a High-affinity peer
+/// whose only address is a black hole is being dialled (the dial stays in flight for the connect timeout);
+/// the application removes the entry and inserts it again; no second dial may start while the first is in
+/// flight, and the next one must respect the backoff of the first failure.
+fn reinsert_while_dialing(run: &mut Run, case: u64) -> anyhow::Result<()> {
+    let seed = run.seed ^ 0x13_2e ^ (case << 12);
+    run.mark(&format!("scenario reinsert_while_dialing case {case} seed {} (re-run with ./check C13 --seed <seed>)", run.seed));
+    let interval = 1_000u64;
+    let connect_timeout = 6_000 + 1_000 * (case % 3);
+    let step = 3_000u64;
+    let rt = paused_rt();
+    let dials: Arc<Mutex<Vec<u64>>> = Arc::new(Mutex::new(vec![]));
+    let d2 = dials.clone();
+    let res: anyhow::Result<()> = rt.block_on(async move {
+        anemo::verif::set_tick_jitter_ms(Some(0));
+        let fabric = Fabric::new(seed);
+        let mut cfg: Config = config_idle(60_000);
+        cfg.connectivity_check_interval_ms = Some(interval);
+        cfg.connect_timeout_ms = Some(connect_timeout);
+        cfg.connection_backoff_ms = Some(step);
+        cfg.max_connection_backoff_ms = Some(60_000);
+        let start = tokio::time::Instant::now();
+        let d = start_node(&fabric, seed, 1, cfg)?;
+        let own = d.id;
+        let target = PeerId(key_of(seed, 77));
+        anemo::verif::set_point_callback(Some(Arc::new(move |pi: &anemo::verif::PointInfo| {
+            if pi.own == Some(own) && pi.name == "cm.dial" && pi.peer == Some(target) {
+                d2.lock().unwrap().push((tokio::time::Instant::now() - start).as_millis() as u64);
+            }
+        })));
+        let info = || PeerInfo { peer_id: target, affinity: PeerAffinity::High, address: vec![Fabric::addr(240).into()] };
+        d.net.known_peers().insert(info());
+        // wait for the first dial, then edit the table between checks
+        tokio::time::sleep(Duration::from_millis(interval + 400)).await;
+        d.net.known_peers().remove(&target);
+        tokio::time::sleep(Duration::from_millis(interval * (1 + case % 2))).await;
+        d.net.known_peers().insert(info());
+        tokio::time::sleep(Duration::from_millis(connect_timeout + step + 3 * interval)).await;
+        anemo::verif::set_point_callback(None);
+        anemo::verif::set_tick_jitter_ms(None);
+        drop(d);
+        Ok(())
+    });
+    drop(rt);
+    res?;
+    let v = dials.lock().unwrap().clone();
+    run.eval(&format!("reinsert-while-dialing {case}"), true);
+    run.count("reinsert-while-dialing", &format!("dials={}", v.len().min(4)));
+    if v.is_empty() {
+        run.oracle_fail(json!({"kind": "a High-affinity known peer with an address was never dialled", "case": case}));
+    } else {
+        let first_end = v[0] + connect_timeout;
+        if let Some(second) = v.get(1) {
+            if *second < first_end {
+                run.oracle_fail(json!({"kind": "a peer that is already being dialled was dialled again (after its known-peer entry was removed and re-inserted)", "dial_instants_ms": v.clone(), "first_dial_in_flight_until_ms": first_end, "seed": run.seed, "case": case}));
+            } else if *second <= first_end + step.min(60_000) - interval {
+                run.oracle_fail(json!({"kind": "the dial after a failed one came sooner than the backoff step after the failure was noticed", "dial_instants_ms": v.clone(), "first_dial_failed_at_ms": first_end, "step_ms": step, "seed": run.seed, "case": case}));
+            }
+        }
+    }
     Ok(())
 }
 
